@@ -14,9 +14,9 @@ Open Scope N_scope.
    _loop_vars / _block_vars, included) — provided Python's identifier normalisation does not
    alias two template names (NoAlias). *)
 Theorem C01_gen_wf_partial :
-  forall (pynorm : name -> name), (forall a b, pynorm a = pynorm b -> a = b) ->
+  forall (ascii : name -> bool) (pynorm : name -> name), (forall a b, pynorm a = pynorm b -> a = b) ->
   forall (s : stmt) (in_loop loop_frame block_frame : bool) (t : list py),
-    gen in_loop loop_frame block_frame s = Ok t -> forallb (py_ok pynorm in_loop) t = true.
+    gen ascii in_loop loop_frame block_frame s = Ok t -> forallb (py_ok pynorm in_loop) t = true.
 Proof. exact gen_wf. Qed.
 Print Assumptions C01_gen_wf_partial.
 
@@ -24,20 +24,37 @@ Print Assumptions C01_gen_wf_partial.
    for 'ﬁ' and 'fi') a macro with those two parameters is accepted and emitted, and rejected
    by the Python compiler.  Recorded as known finding C01-nfkc-params. *)
 Definition toy_norm (n : name) : name := if n =? 9 then 8 else n.
+Definition toy_ascii (n : name) : bool := negb (n =? 9).
 Theorem C01_gen_wf_refuted_alias :
-  exists s t, gen false false false s = Ok t /\ forallb (py_ok toy_norm false) t = false.
+  exists s t, gen toy_ascii false false false s = Ok t /\ forallb (py_ok toy_norm false) t = false.
 Proof. exists (SMacro [8; 9] [SText]), [PDef [8; 9] [PSimple]; PSimple]. split; vm_compute; reflexivity. Qed.
 Print Assumptions C01_gen_wf_refuted_alias.
 
+(* The NoAlias guard is NOT needed for the keywords of calls (repaired by the fix: commit that routes
+   non-ASCII keyword names through a dict, like Python keywords): under any normalisation that fixes
+   ASCII names and the engine's own three keywords, every emitted keyword list is accepted — the
+   aliasing pair as keywords of one call, and an alias of the engine's own caller keyword, included *)
+Theorem C01_keywords_need_no_noalias :
+  forall (ascii : name -> bool) (pynorm : name -> name),
+  (forall a, ascii a = true -> pynorm a = a) ->
+  pynorm CALLER = CALLER -> pynorm LOOPVARS = LOOPVARS -> pynorm BLOCKVARS = BLOCKVARS ->
+  forall fc lf bf kws il t, gen_call ascii fc lf bf kws = Ok t -> forallb (py_ok pynorm il) t = true.
+Proof. exact gen_call_ok_ascii. Qed.
+Print Assumptions C01_keywords_need_no_noalias.
+Example C01_alias_keywords_accepted :
+  gen toy_ascii false false false (SCallKw [8; 9]) = Ok [PCall []] /\
+  forallb (py_ok toy_norm false) [PCall []] = true.
+Proof. split; vm_compute; reflexivity. Qed.
+
 (* break / continue are rejected exactly where no for statement of the same emitted function
    encloses them: top level, macro / call block / block bodies, else of a recursive loop *)
-Theorem C01_loopctl_rejected_outside : forall lf bf,
-  gen false lf bf SBreak = SyntaxErr /\
-  (forall b, gen true lf bf (SMacro [] [SBreak]) = SyntaxErr /\ gen b lf bf (SFor false [SMacro [] [SContinue]] []) = SyntaxErr) /\
-  gen true lf bf (SFor true [] [SBreak]) = SyntaxErr /\
-  gen false lf bf (SFor false [] [SContinue]) = SyntaxErr /\
-  gen true lf bf (SBlock [SBreak]) = SyntaxErr.
-Proof. intros lf bf. repeat split; reflexivity. Qed.
+Theorem C01_loopctl_rejected_outside : forall ascii lf bf,
+  gen ascii false lf bf SBreak = SyntaxErr /\
+  (forall b, gen ascii true lf bf (SMacro [] [SBreak]) = SyntaxErr /\ gen ascii b lf bf (SFor false [SMacro [] [SContinue]] []) = SyntaxErr) /\
+  gen ascii true lf bf (SFor true [] [SBreak]) = SyntaxErr /\
+  gen ascii false lf bf (SFor false [] [SContinue]) = SyntaxErr /\
+  gen ascii true lf bf (SBlock [SBreak]) = SyntaxErr.
+Proof. intros ascii lf bf. repeat split; reflexivity. Qed.
 
 (* caller= is refused on the call of a call block (the generator passes it there) and is an ordinary
    keyword elsewhere; _loop_vars= / _block_vars= are refused as explicit keywords of every call; the
@@ -45,18 +62,18 @@ Proof. intros lf bf. repeat split; reflexivity. Qed.
    macro / the loop's else) and _block_vars exactly in block frames (repaired by the fix: commits
    9fa25ee and 55e3ad6; before them the emitted call repeated the keyword or silently dropped it) *)
 Theorem C01_engine_keywords :
-  gen false false false (SCallBlock [] [] [CALLER] []) = SyntaxErr /\
-  (forall il lf bf, gen il lf bf (SCallKw [LOOPVARS]) = SyntaxErr /\ gen il lf bf (SCallKw [BLOCKVARS]) = SyntaxErr) /\
-  gen false false false (SCallKw [CALLER]) = Ok [PCall [CALLER]] /\
-  gen false false false (SFor false [SInline true [SCallKw []]; SIf [SSame [SCallKw [10]]] []] [SCallKw []])
+  gen toy_ascii false false false (SCallBlock [] [] [CALLER] []) = SyntaxErr /\
+  (forall il lf bf, gen toy_ascii il lf bf (SCallKw [LOOPVARS]) = SyntaxErr /\ gen toy_ascii il lf bf (SCallKw [BLOCKVARS]) = SyntaxErr) /\
+  gen toy_ascii false false false (SCallKw [CALLER]) = Ok [PCall [CALLER]] /\
+  gen toy_ascii false false false (SFor false [SInline true [SCallKw []]; SIf [SSame [SCallKw [10]]] []] [SCallKw []])
     = Ok [PFor [PCall []; PIf [PCall [10; LOOPVARS]]; PIf []]; PIf [PCall []]] /\
-  gen false false false (SBlock [SFor false [SCallKw []] []; SCallBlock [] [] [] []])
+  gen toy_ascii false false false (SBlock [SFor false [SCallKw []] []; SCallBlock [] [] [] []])
     = Ok [PDef [] [PFor [PCall [LOOPVARS]]; PIf []; PDef [] []; PCall [CALLER; BLOCKVARS]]; PSimple].
 Proof. repeat split; try (destruct lf, bf); vm_compute; reflexivity. Qed.
 
 (* non-vacuity: a nested program with loop control in every accepted position *)
 Example C01_example :
-  gen false false false (SFor false [SIf [SBreak] [SInline false [SContinue]]; SFor true [SBreak] [SFor false [SContinue] []]]
+  gen toy_ascii false false false (SFor false [SIf [SBreak] [SInline false [SContinue]]; SFor true [SBreak] [SFor false [SContinue] []]]
                         [SText])
   = Ok [PFor [PIf [PBreak]; PIf [PContinue];
               PDef [] [PFor [PBreak]; PIf [PFor [PContinue]; PIf []]]; PSimple];
